@@ -21,6 +21,11 @@ STD_PRIMS = [  # (regex, primitive, mutating?)
  (r'\.is_file\(\)|\.is_dir\(\)|\.is_symlink\(\)|\.exists\(\)', 'Metadata', False), (r'\.seek\(', 'Seek', False), (r'\.modified\(\)', 'Metadata', False),
 ]
 FORBIDDEN = [r'\bunsafe\b', r'\bextern\s+"C"', r'\blibc::', r'\binclude!\(']
+# a new dependency could bring file-system effects the scan does not see: the dependency list is pinned
+cargo = open(repo + "/Cargo.toml").read()
+deps = sorted(re.findall(r'^([A-Za-z0-9_-]+)\s*=', cargo[cargo.index("[dependencies]"):], re.M))
+if deps != ["file-ext", "url-build-parse", "url-search-params"]:
+    sys.exit("scan_fs: dependency list changed: %s" % deps)
 
 def strip_comments(src): return re.sub(r'//[^\n]*', '', re.sub(r'/\*.*?\*/', '', src, flags=re.S))
 def functions(src):
